@@ -45,7 +45,7 @@ fn container_config(c: &CCfg) -> ContainerConfig {
     if let Some(w) = &c.command { cfg.command(w.clone()); }
     if c.env.len() >= 2 { cfg.envs(c.env.clone()); } else { for (k, v) in &c.env { cfg.env(k, v); } }
     for p in &c.ports { cfg.expose_port(*p); }
-    for (s, t) in &c.mounts { cfg.bind_mount(s, t); }
+    for (s, t) in &c.mounts { cfg.bind_mount(mount_source(s), t); }
     cfg
 }
 
